@@ -457,6 +457,42 @@ def pattern_programs():
     for first_eval in (True, False):
         add("batchnorm_reused_before_backward", [Leaf("x", (2, 2)), Leaf("x2", (2, 2), "any", False), Leaf("gamma", (2,)), Leaf("beta", (2,)), Leaf("rm", (2,), "any", False),
                                                   Leaf("rv", (2,), "pos", False)], bn_between(first_eval), first_use="eval" if first_eval else "train")
+    # augmented assignment on a constant the graph has already captured: `c += 1` rebinds the NAME (or, if a tensor ever supports it in place, must not disturb what earlier
+    # operations saved): the product recorded before it is differentiated with the value it was computed with
+    def aug(opname):
+        def build(T, K):
+            c = T["c"]
+            y = T["a"] * c + F.matmul(T["a"], F.transpose(T["b"], 0, 1)).sum() * 0.0
+            if opname == "+=":
+                c += 1.0
+            elif opname == "-=":
+                c -= T["d"]
+            elif opname == "*=":
+                c *= 2.0
+            else:
+                c /= 2.0
+            return y * c
+        return build
+    for opname in ("+=", "-=", "*=", "/="):
+        add("augmented_assignment_on_a_captured_constant", [A(), Bb(False), Leaf("c", (2, 3), "any", False), Leaf("d", (2, 3), "any", False)], aug(opname), operator=opname)
+    # one operation through which SEVERAL paths lead back to the same input cell: dilated windows that interleave (stride >= kernel, yet windows share cells) -- the
+    # contributions of all windows add up, inside a diamond whose other branch uses the input directly
+    def interleaved(kind):
+        def build(T, K):
+            x = T["x"]
+            if kind == "conv1d":
+                y = NF.conv1d(x, T["w"], None, 2, 0, 2)
+            elif kind == "avg_pool1d":
+                y = NF.avg_pool1d(x, 2, 2, 0, 2)
+            elif kind == "conv2d":
+                y = NF.conv2d(x, T["w"], None, 2, 0, (1, 2))
+            else:
+                y = NF.unfold(x, (2, 1), (2, 1), (2, 1), 0)
+            return F.exp(y).sum() * F.sum(x * x) + y.sum()
+        return build
+    for kind, leaves in (("conv1d", [Leaf("x", (1, 1, 5)), Leaf("w", (1, 1, 2))]), ("avg_pool1d", [Leaf("x", (1, 2, 5))]),
+                         ("conv2d", [Leaf("x", (1, 1, 2, 5)), Leaf("w", (1, 1, 2, 2))]), ("unfold", [Leaf("x", (1, 1, 5, 1))])):
+        add("interleaved_dilated_windows_in_a_diamond", leaves, interleaved(kind), op=kind)
     # order independence: the same expression with independent branches built in every order
     def branches(order):
         def build(T, K):
@@ -551,6 +587,10 @@ def main(tier="quick", seed=0, procs=None, only=None):
     # "for any upstream gradient": also one that is the .grad an earlier sweep left on a tensor INSIDE the graph now being differentiated (C04's histories with that event)
     from . import c04
     cases += [h for h in c04.histories("quick", seed) if "BWG_last" in h.events]
+    # deductive part: the protocol of Tensor.backward around its traversal (refusals, root seed, each operation once in reverse order, release), for every graph size
+    from . import c03_vc
+    from ..pyvc.harness import TargetCase
+    cases += [TargetCase(t) for t in c03_vc.targets()]
     if only:
         cases = [c for c in cases if only in c.name]
     from ..catalog import canaries
